@@ -261,9 +261,16 @@ fn shuttle_config() -> shuttle::Config {
     cfg
 }
 
+/// (round 16) programs catch panics and go on: the engine must not take the first panic for the
+/// end of the execution (vendor/shuttle-engine/README.verif.md)
+pub fn survivable_panics() {
+    shuttle_engine::runtime::execution::SURVIVABLE_PANICS.store(true, std::sync::atomic::Ordering::SeqCst);
+}
+
 /// Make shuttle install its process-wide panic hook now (it does so once, at its first
 /// execution), so that the simulator's own hook, installed afterwards, sits on top of it.
 pub fn prime_shuttle() {
+    survivable_panics();
     let runner = shuttle::Runner::new(SimSchedNoWorld { started: false }, shuttle_config());
     runner.run(|| {});
 }
@@ -1365,6 +1372,7 @@ mod tests {
 
     /// run `f` as a simulated program under the thread scheduler with the given schedule
     fn simulate(schedule: &[Decision], f: fn()) -> (World, std::thread::Result<()>) {
+        survivable_panics();
         let mut w = World::new(empty_image(), replay_mode(schedule), false, false);
         w.under_shuttle = true;
         world::install(w);
@@ -1482,7 +1490,62 @@ mod tests {
                 panic!("listing failed");
             });
         });
-        assert!(r.is_err());
+        // the run fails with the program's own panic, not with a deadlock of the engine's making
+        let e = r.expect_err("the run fails");
+        let why = e.downcast_ref::<&str>().map(|s| s.to_string()).or_else(|| e.downcast_ref::<String>().cloned()).unwrap_or_default();
+        assert!(why.contains("listing failed"), "{:?}", why);
+    }
+
+    #[test]
+    fn a_program_survives_the_panic_of_a_thread_it_joins() {
+        // round 16: join().is_err() is error handling, not the end of the run
+        let (w, r) = simulate(&[], || {
+            let h = sstd::thread::spawn(|| {
+                if true {
+                    panic!("worker failed");
+                }
+                7u32
+            });
+            let got = h.join();
+            crate::seams::emit_str(if got.is_err() { "recovered" } else { "value" });
+        });
+        assert!(r.is_ok(), "{:?}", world::PANIC_INFO.with(|p| p.borrow().clone()));
+        assert_eq!(w.out, "recovered");
+        assert_eq!(w.stats.thread_panics_survived, 1);
+    }
+
+    #[test]
+    fn a_lock_released_by_an_unwinding_thread_is_poisoned_not_lost_and_a_dropped_sender_disconnects() {
+        let (w, r) = simulate(&[], || {
+            use sstd::sync::{Arc, Mutex};
+            let m = Arc::new(Mutex::new(1u32));
+            let (tx, rx) = sstd::sync::mpsc::channel::<u32>();
+            let m2 = m.clone();
+            let h = sstd::thread::spawn(move || {
+                let _tx = tx; // dropped while the panic unwinds
+                let mut g = m2.lock().unwrap();
+                *g = 2;
+                panic!("worker failed while holding the lock");
+            });
+            // a second thread waits for the lock while the first one holds it
+            let m3 = m.clone();
+            let h2 = sstd::thread::spawn(move || match m3.lock() {
+                Ok(g) => *g,
+                Err(p) => *p.into_inner() + 100,
+            });
+            let disconnected = rx.recv().is_err();
+            let first = h.join().is_err();
+            let second = h2.join().unwrap();
+            let mine = match m.lock() {
+                Ok(g) => *g,
+                Err(p) => *p.into_inner() + 100,
+            };
+            crate::seams::emit_str(&format!("{} {} {} {}", disconnected, first, second, mine));
+        });
+        assert!(r.is_ok(), "{:?}", world::PANIC_INFO.with(|p| p.borrow().clone()));
+        // the second thread got the lock either before the first one (value 1) or after its panic
+        // (poisoned, value 2 + 100); main always comes after the panic
+        assert!(w.out == "true true 102 102" || w.out == "true true 1 102", "{}", w.out);
     }
 
     #[test]
